@@ -278,6 +278,9 @@ type fnState struct {
 	escapes []string
 	free    map[*ssa.FreeVar]AVal        // values of captured variables at the closure's creation (closures called in place)
 	callees map[ssa.Instruction]*fnState // state of the callee analysed for a call site (last evaluation)
+	// calleesDyn: for a call through a function value that can only be one of the closures of this function (the
+	// elements of a local slice of steps run in a loop), the state of each closure
+	calleesDyn map[ssa.Instruction][]*fnState
 }
 
 type SCCP struct {
@@ -1021,7 +1024,7 @@ func (s *SCCP) eval(st *fnState, v ssa.Value, get func(ssa.Value) AVal, depth in
 						}
 					}
 					if wv.K == APtr && wv.Obj != al && plainLiteral(wv.Obj) {
-						if v, ok := s.objFields[wv.Obj][fa.Field]; ok {
+						if v, ok := s.objField(wv.Obj, fa.Field); ok {
 							return v
 						}
 					}
@@ -1035,7 +1038,7 @@ func (s *SCCP) eval(st *fnState, v ssa.Value, get func(ssa.Value) AVal, depth in
 			}
 			// load of a local that is only stored once with a known value (spilled variable)
 			if al, ok := x.X.(*ssa.Alloc); ok {
-				if _, isStruct := x.Type().Underlying().(*types.Struct); isStruct && len(s.objFields[al]) > 0 && plainLiteral(al) {
+				if _, isStruct := x.Type().Underlying().(*types.Struct); isStruct && plainLiteral(al) && structLocalHasFieldUse(al) {
 					return AVal{K: APtr, Obj: al} // the value of a local struct literal: represented by the object
 				}
 				return s.loadLocal(st, al, get)
@@ -1134,7 +1137,7 @@ func (s *SCCP) eval(st *fnState, v ssa.Value, get func(ssa.Value) AVal, depth in
 			return b
 		}
 		if sv := get(x.X); sv.K == APtr && plainLiteral(sv.Obj) {
-			if v, ok := s.objFields[sv.Obj][x.Field]; ok {
+			if v, ok := s.objField(sv.Obj, x.Field); ok {
 				return v
 			}
 		}
@@ -1287,6 +1290,66 @@ func (s *SCCP) evalCall1(st *fnState, x *ssa.Call, get func(ssa.Value) AVal, dep
 		return fresh
 	}
 	sc := cc.StaticCallee()
+	if sc != nil && fname(sc) == "pegnet.IsRejectedTx" && len(cc.Args) == 1 {
+		// the classification written as a scan over a local table: answered from the table (E6 does not unroll loops)
+		if tbl, ok := tableScanCodesMemo(s.c, sc); ok {
+			a := get(cc.Args[0])
+			switch {
+			case a.K == ABot:
+				return bot
+			case a.isNil():
+				return AVal{K: ATuple, Tup: []AVal{cInt(1), nilVal}}
+			case a.K == ASentinel:
+				if code, has := tbl[a.G]; has {
+					return AVal{K: ATuple, Tup: []AVal{cInt(code), nilVal}}
+				}
+				return AVal{K: ATuple, Tup: []AVal{cInt(0), a}}
+			case a.K == AFresh:
+				return AVal{K: ATuple, Tup: []AVal{cInt(0), a}}
+			}
+			return tupleOfTop(cc.Signature())
+		}
+	}
+	if sc == nil && !cc.IsInvoke() {
+		// a step taken from a local list of closures: every element is analysed as part of this function, results joined
+		if steps := localClosureSteps(cc.Value, st.fn); len(steps) > 0 {
+			res := bot
+			var states []*fnState
+			for _, mc := range steps {
+				g := mc.Fn.(*ssa.Function)
+				fv := map[*ssa.FreeVar]AVal{}
+				for i, b := range mc.Bindings {
+					if i >= len(g.FreeVars) {
+						break
+					}
+					if al, ok := b.(*ssa.Alloc); ok && !closureWrites(mc, al) {
+						fv[g.FreeVars[i]] = s.loadLocal(st, al, get)
+					}
+				}
+				s.nextFree = fv
+				var args []AVal
+				for _, a := range cc.Args {
+					args = append(args, get(a))
+				}
+				if cs := s.run(g, args, depth); cs != nil {
+					states = append(states, cs)
+					if cs.result.K != ABot {
+						res = join(res, cs.result)
+					}
+				} else {
+					res = join(res, tupleOfTop(cc.Signature()))
+				}
+			}
+			if st.calleesDyn == nil {
+				st.calleesDyn = map[ssa.Instruction][]*fnState{}
+			}
+			st.calleesDyn[x] = states
+			if res.K == ABot {
+				return tupleOfTop(cc.Signature())
+			}
+			return res
+		}
+	}
 	if sc != nil && fnInModule(sc) && sc.Blocks != nil && (depth < s.sc.MaxDepth || sameLogicalFunction(sc, st.fn)) && !s.sc.NoInline[name] && !s.sc.NoInline[shortCallee(cc)] {
 		var args []AVal
 		for _, a := range cc.Args {
@@ -1369,6 +1432,9 @@ func (s *SCCP) analyse(fn *ssa.Function, args []AVal) *Trace {
 					lc.Result = st.val[v]
 				}
 				t.Calls = append(t.Calls, lc)
+				for _, cs := range st.calleesDyn[ins] {
+					walk(cs, depth) // the steps of a local list of closures
+				}
 				if sc := cc.StaticCallee(); sc != nil && fnInModule(sc) && sc.Blocks != nil && (depth < s.sc.MaxDepth || sameLogicalFunction(sc, st.fn)) {
 					if _, bound := s.callBinding(st.fn, cc); bound || s.sc.NoInline[lc.Callee] || s.sc.NoInline[lc.Short] {
 						continue
@@ -2184,4 +2250,130 @@ func plainLiteral(al *ssa.Alloc) bool {
 	}
 	plainLiteralMemo.Store(al, ok)
 	return ok
+}
+
+// localClosureSteps: v is an element of a local array/slice literal all of whose elements are closures made in f
+// (`steps := []func() error{...}; for _, step := range steps { step() }`); returns those closures.
+func localClosureSteps(v ssa.Value, f *ssa.Function) []*ssa.MakeClosure {
+	u, ok := v.(*ssa.UnOp)
+	if !ok || u.Op != token.MUL {
+		return nil
+	}
+	ia, ok := u.X.(*ssa.IndexAddr)
+	if !ok {
+		return nil
+	}
+	var arr *ssa.Alloc
+	switch y := ia.X.(type) {
+	case *ssa.Slice:
+		arr, _ = y.X.(*ssa.Alloc)
+	case *ssa.Alloc:
+		arr = y
+	case *ssa.Phi:
+		// the ranged slice kept in a variable: all edges the same literal
+		for _, e := range y.Edges {
+			if sl, ok := e.(*ssa.Slice); ok {
+				if a, ok := sl.X.(*ssa.Alloc); ok && (arr == nil || arr == a) {
+					arr = a
+					continue
+				}
+			}
+			return nil
+		}
+	}
+	if arr == nil || arr.Referrers() == nil || arr.Parent() != f {
+		return nil
+	}
+	var out []*ssa.MakeClosure
+	for _, rf := range *arr.Referrers() {
+		switch y := rf.(type) {
+		case *ssa.IndexAddr:
+			if y == ia || y.Referrers() == nil {
+				continue
+			}
+			for _, r2 := range *y.Referrers() {
+				switch z := r2.(type) {
+				case *ssa.Store:
+					mc, ok := z.Val.(*ssa.MakeClosure)
+					if !ok || z.Addr != ssa.Value(y) {
+						return nil
+					}
+					if g, ok := mc.Fn.(*ssa.Function); !ok || g.Parent() != f {
+						return nil
+					}
+					out = append(out, mc)
+				case *ssa.UnOp, *ssa.DebugRef:
+				default:
+					return nil
+				}
+			}
+		case *ssa.Slice, *ssa.DebugRef:
+		default:
+			return nil
+		}
+	}
+	return out
+}
+
+// objField: the value of field k of the plain local struct obj as a copy of it sees it - what was stored into the field,
+// joined with the zero value when the field may still be unset (no store at all, or stores outside the straight-line
+// code that follows the declaration: `var w T; if c { w.f = x }`).
+func (s *SCCP) objField(obj *ssa.Alloc, k int) (AVal, bool) {
+	v, has := s.objFields[obj][k]
+	needZero := !has
+	if has && obj.Referrers() != nil {
+		for _, rf := range *obj.Referrers() {
+			fa, ok := rf.(*ssa.FieldAddr)
+			if !ok || fa.Field != k || fa.Referrers() == nil {
+				continue
+			}
+			for _, r2 := range *fa.Referrers() {
+				if st, ok := r2.(*ssa.Store); ok && st.Addr == ssa.Value(fa) && st.Block() != obj.Block() {
+					needZero = true
+				}
+			}
+		}
+	}
+	if !needZero {
+		return v, true
+	}
+	stt := derefStruct(obj.Type())
+	if stt == nil || k >= stt.NumFields() {
+		return top, false
+	}
+	var z AVal
+	switch t := stt.Field(k).Type().Underlying().(type) {
+	case *types.Pointer, *types.Slice, *types.Map, *types.Interface, *types.Chan, *types.Signature:
+		z = nilVal
+	case *types.Basic:
+		switch {
+		case t.Info()&types.IsBoolean != 0:
+			z = cBool(false)
+		case t.Info()&types.IsInteger != 0:
+			z = cInt(0)
+		case t.Info()&types.IsString != 0:
+			z = AVal{K: AConst, C: constant.MakeString("")}
+		default:
+			return top, false
+		}
+	default:
+		return top, false
+	}
+	if !has {
+		return z, true
+	}
+	return join(z, v), true
+}
+
+// structLocalHasFieldUse: the local struct is built or filled field by field (it has field addresses).
+func structLocalHasFieldUse(al *ssa.Alloc) bool {
+	if al.Referrers() == nil {
+		return false
+	}
+	for _, rf := range *al.Referrers() {
+		if _, ok := rf.(*ssa.FieldAddr); ok {
+			return true
+		}
+	}
+	return false
 }
